@@ -15,15 +15,22 @@ def run(res, only=None):
               "perspective_infinite_reverse_lh", "perspective_infinite_rh", "perspective_infinite_reverse_rh",
               "orthographic_rh_gl", "orthographic_lh", "orthographic_rh"]
     core.replay_bin(res, "rot", cases, cfgs, expect_ops=expect, env_extra={"HX_PROP": "C11"}, tag="cam")
+    # code -> spec on random parameters (Trace_Rel.tla, exact dyadic arithmetic): views with unit dir / up whose sine is 2e-3 .. 1 and random
+    # eyes -- rigid, eye -> origin, dir -> -+Z, up into the +Y half-plane with roll <= 2^9 u / |dir x up|; projections with any aspect,
+    # near in 2^-7 .. 2^3 and far/near up to 1e6 -- zero pattern, clip w, near/far planes to the documented depths, fov / box planes to +-1
+    core.record_and_validate(res, "rel", [c for c in cfgs if c != "sse2-rel"], draws=4 if res.tier == "quick" else 100, module="Trace_Rel",
+                             chunks=2 if res.tier == "quick" else 8, expect_kinds=("rel",), ops=["view", "proj"])
     res.rule = ("views: every (eye, dir, up) with integer eyes (off-axis), dir over the 18 lattice directions (axes and face diagonals), up "
                 "over the 6 axes not parallel to dir (so up is often not perpendicular to dir), both handednesses: look_to/look_at of Mat4, "
                 "Affine3A, Mat3/Mat3A, Quat and f64 forms against the exact matrix whose defining properties TLC proves (rigid, eye->0, "
                 "dir->-+Z, up into +Y half-plane). Projections: 7 perspective x tan(fov/2) in {1/2,1,2} x aspect 2^j x (near,far) incl. ratio "
                 "32769, and 3 orthographic x 4 boxes (off-centre, non-square): M*(p,1), project_point3, transform_point3 on 48-100 probe "
-                "points (corners, edges, plane centres, interior) against exact dyadic clip coordinates.")
+                "points (corners, edges, plane centres, interior) against exact dyadic clip coordinates.  Code -> spec: the promises themselves "
+                "(Trace_Rel.tla: view and proj relations) on random eye / dir / up with |dir x up| down to 2e-3 and random projection parameters with "
+                "far/near up to 1e6, decided exactly by TLC per build.")
     res.assumptions = ["fov is passed as 2*atan(2^j) computed in floating point; tolerance 4e-5 / 4e-12 relative to the clip magnitude",
-                       "parameters off these grids (far/near up to 1e6, arbitrary fov) are not enumerated"]
+                       "tan(fov/2) is a power of two in the recorded projections (arbitrary fov would need a transcendental function in the specification)"]
 
 
 def replay(res, path, only=None):
-    return core.generic_replay(res, path, "rot", env_keys=())
+    return core.replay_dispatch(res, path, "rot", env_keys=())
